@@ -14,8 +14,7 @@ EXTENDS ScopeStack
 
 Names == {"x", "y"}
 Vals == {"0", "1"}
-MaxDepth == 2
-MaxCalls == 1
+CONSTANTS MaxDepth, MaxCalls
 
 MCNext ==
   \/ Len(loc) < MaxDepth /\ Push
